@@ -75,7 +75,8 @@ func attributeExists(args ...Object) Object {
 
 	path := args[0]
 
-	return nativeBoolToBooleanObject(path.Type() != ObjectTypeNull)
+	// an attribute of type NULL exists; only an undefined path does not
+	return nativeBoolToBooleanObject(!isUndefined(path))
 }
 
 func attributeNotExists(args ...Object) Object {
@@ -85,7 +86,7 @@ func attributeNotExists(args ...Object) Object {
 
 	path := args[0]
 
-	return nativeBoolToBooleanObject(path.Type() == ObjectTypeNull)
+	return nativeBoolToBooleanObject(isUndefined(path))
 }
 
 func attributeType(args ...Object) Object {
@@ -186,7 +187,7 @@ func ifNotExists(args ...Object) Object {
 
 	obj := args[0]
 
-	if obj == nil || obj.Type() == ObjectTypeNull {
+	if isUndefined(obj) {
 		return args[1]
 	}
 
